@@ -26,6 +26,12 @@ Families (all members visited):
   triples : (thorough) every ordered triple of atoms as a AND b AND c, a AND _or(b, c), _or(a, b) AND c,
             _or(a, b, c)
   deco3   : (thorough) every sequence of 3 top-level items over a reduced item alphabet; nested _or groups
+  long    : IN / NOT IN / '=' / '!=' with lists, tuples and sets of 1001 and 2001 values (absent from the table,
+            with present ones at the start / beyond the 1000th place, with and without a None member), alone in
+            both placeholder styles, AND-ed with 4 representative atoms, inside _or before and after them
+  statics : static string conditions with case-sensitive literals ("s = 'a_b'", "s != 'o''k'", "s IN ('a_b', 'Zz')",
+            "s GLOB 'a*'") are items of the deco alphabet, alone, combined and inside _or; their text must be
+            part of the statement as written
   seq     : two calls in a row on one fresh SqlMethod / SqlMethodT object in freshly reloaded modules
             (16 x 16 representative atoms x 6 method pairs x both placeholder styles)
   illtyped: operator/operand pairs the documentation does not define (outside the property: counted;
@@ -66,7 +72,8 @@ REQUIRED_FEATURES = [
     "val:singleton-list", "val:tuple", "val:set", "val:list-with-null", "val:operator-text",
     "form:3-tuple", "form:2-tuple", "form:list", "form:object", "form:keyword", "form:or-empty", "form:or-1",
     "form:or-2", "form:or-keyword", "form:none-arg", "form:static", "form:lower-case-op",
-    "form:keyword-underscore-column", "col:qualified", "col:underscore", "seq:two-calls",
+    "form:keyword-underscore-column", "col:qualified", "col:underscore", "seq:two-calls", "val:long-list-1001", "val:long-list-2001", "val:long-list-with-null",
+    "form:static-with-literal",
     "select:id", "select:s", "select:n", "select:f", "scalars:-", "scalars:call", "scalars:ctor",
     "scalars:falsy-single-row:list", "scalars:falsy-single-row:all", "scalars:falsy-single-row:one",
     "scalars:falsy-single-row:one_or_none",
@@ -104,8 +111,18 @@ SELECT = "SELECT id, s, n FROM t"
 # statements by first selected column (the column returned in scalar mode) and the projection of a table row
 SELECTS = {"id": SELECT, "s": "SELECT s, id, n FROM t", "n": "SELECT n, id, s FROM t", "f": "SELECT f, id, s FROM t"}
 PROJ = {"id": (0, 1, 2), "s": (1, 0, 2), "n": (2, 0, 1), "f": (4, 0, 1)}
+def _glob_a(v):
+    return None if v is None else v.startswith("a")
+
+
 STATICS = [("id = n", lambda r: L.eq3(r[0], r[2])),
-           ("s IS NOT NULL", lambda r: r[1] is not None)]
+           ("s IS NOT NULL", lambda r: r[1] is not None),
+           # literal-bearing static conditions: their text must reach the statement unchanged (case matters:
+           # the table has 'a_b' and 'A_B', GLOB is case sensitive)
+           ("s = 'a_b'", lambda r: L.eq3(r[1], "a_b")),
+           ("s != 'o''k'", lambda r: L.not3(L.eq3(r[1], "o'k"))),
+           ("s IN ('a_b', 'Zz')", lambda r: L.in3(r[1], ["a_b", "Zz"])),
+           ("s GLOB 'a*'", lambda r: _glob_a(r[1]))]
 
 
 def _static_masks(k):
@@ -162,7 +179,55 @@ def _atom_specs():
     return out
 
 
+_LONG = {}
+
+
+def _expand(spec):
+    """["long", {"kind": "l"|"t"|"s", "n": 1001, "col": "n"|"s", "present": "none"|"start"|"end"|"both", "null": 0|1}]
+    -> the ordinary value spec with n members: values absent from the table, the present ones at the asked
+    places (the last places lie beyond the 1000th member), optionally one None in the middle."""
+    if spec[0] != "long":
+        return spec
+    key = repr(sorted(spec[1].items()))
+    out = _LONG.get(key)
+    if out is None:
+        q = spec[1]
+        n = q["n"]
+        if q["col"] == "n":
+            vals, present = list(range(100, 100 + n)), [1, 0]
+        else:
+            vals, present = ["v%04d" % k for k in range(n)], ["a_b", "IS NULL"]
+        if q["present"] in ("start", "both"):
+            vals[0] = present[0]
+        if q["present"] == "start":
+            vals[1] = present[1]
+        if q["present"] in ("end", "both"):
+            vals[-1] = present[1]
+        if q["present"] == "end":
+            vals[-2] = present[0]
+        if q["null"]:
+            vals[n // 2] = None
+        out = _LONG[key] = [q["kind"], vals]
+    return out
+
+
+_MASKS = {}
+
+
+def _masks(col, op, spec):
+    if spec[0] != "long":
+        return L.atom_masks(ROWS, COLIDX[col], op, spec)
+    key = (col, op, repr(sorted(spec[1].items())))
+    if key not in _MASKS:
+        _MASKS[key] = L.atom_masks(ROWS, COLIDX[col], op, _expand(spec))
+    return _MASKS[key]
+
+
 def _val_feats(spec):
+    if spec[0] == "long":
+        return ["val:long-list", "val:long-list-%d" % spec[1]["n"]] + \
+            (["val:long-list-with-null", "val:list-with-null"] if spec[1]["null"] else []) + \
+            ({"l": [], "t": ["val:tuple"], "s": ["val:set"]}[spec[1]["kind"]])
     kind, v = spec
     f = []
     vals = v if kind != "v" else [v]
@@ -274,6 +339,12 @@ def _item_alphabet(full):
                   ["or", [], {"_d": ["v", 0], "n": ["v", 7]}], ["a3", "_d", "=", ["v", 0]],
                   ["a2", "s", ["v", "IS NULL"]], ["or", [["a2", "s", ["v", "is not null"]]], {"s": ["v", "NULL"]}]]
     items += [["st", 0], ["st", 1], ["none"]]
+    if full:
+        items += [["st", 2], ["st", 3], ["st", 4], ["st", 5],
+                  ["or", [["st", 2], REPS[10].item("a3")], {}], ["or", [["st", 3]], {"n": ["v", 1]}],
+                  ["or", [["st", 5], ["st", 4]], {}], ["or", [REPS[1].item("a3"), ["st", 2]], {"_d": ["v", 1]}]]
+    else:
+        items += [["st", 2], ["st", 5], ["or", [["st", 4], REPS[10].item("a3")], {}]]
     return items
 
 
@@ -358,9 +429,9 @@ def build_item(item):
             op = "="
         else:
             _, col, op, spec = item
-        val = L.decode_value(spec)
-        masks = L.atom_masks(ROWS, COLIDX[col], op, spec)
-        bound = L.bound_values(op, spec)
+        val = L.decode_value(_expand(spec))
+        masks = _masks(col, op, spec)
+        bound = L.bound_values(op, _expand(spec))
         feats = ["op:" + op.upper()] + _val_feats(spec)
         feats.append({"a3": "form:3-tuple", "al": "form:list", "ao": "form:object", "a2": "form:2-tuple"}[kind])
         if op != op.upper():
@@ -401,7 +472,8 @@ def build_item(item):
             feats.append("form:or-nested")
         return SqlMethod._or(*[b[0] for b in built], **kwargs), L.or_masks(ms, FULL), bound, leaves, feats
     if kind == "st":
-        return STATICS[item[1]][0], _static_masks(item[1]), [], [], ["form:static"]
+        return STATICS[item[1]][0], _static_masks(item[1]), [], [], \
+            ["form:static"] + (["form:static-with-literal"] if "'" in STATICS[item[1]][0] else [])
     if kind == "none":
         return None, None, [], [], ["form:none-arg"]
     raise ValueError(item)
@@ -461,7 +533,8 @@ def _same_multiset(a, b):
     return len(a) == len(b) and sorted(map(_pkey, a)) == sorted(map(_pkey, b))
 
 
-def run_built(args, kwargs, masks_list, bound, strs, method, order, via, conn_kind, acc, select="id", scalars="-"):
+def run_built(args, kwargs, masks_list, bound, strs, method, order, via, conn_kind, acc, select="id", scalars="-",
+              statics=()):
     """Execute one call on the real code and judge it. -> (outcome label, violation or None, unknown?)."""
     t, f = L.and_masks(masks_list, FULL)
     exp_ids = [i for i in range(NROWS) if t >> i & 1]
@@ -508,6 +581,14 @@ def run_built(args, kwargs, masks_list, bound, strs, method, order, via, conn_ki
     if len(log) != 1:
         return label, ("statement-count", f"{len(log)} statements executed for one call", len(log), 1), unknown
     sql, params = log[0]
+    for text in statics:
+        # a static condition is the caller's SQL: one with a literal must be in the statement as written
+        if text not in sql and "'" not in text:
+            continue                  # identifiers only: a re-spelling (case, blanks) cannot change the rows
+        if text not in sql:
+            return label, ("static-text-altered", "the text of a static condition is not part of the statement as "
+                           "written", sql, text), unknown
+        sql = sql.replace(text, " <static> ", 1)
     nph = sql.count("?") if conn_kind == "q" else sql.count("%s")
     if conn_kind == "p" and "?" in sql:
         return label, ("placeholder-style", "'?' placeholder sent to a '%s' style connection", sql, "%s"), unknown
@@ -525,6 +606,18 @@ def run_built(args, kwargs, masks_list, bound, strs, method, order, via, conn_ki
         return label, ("operand-in-sql-text", "quoted literal in the SQL text",
                        {"sql": sql, "params": params}, "values only in params"), unknown
     return label, None, unknown
+
+
+def _static_texts(items):
+    out = []
+    for it in items:
+        if it[0] == "st":
+            out.append(STATICS[it[1]][0])
+            if "'" in STATICS[it[1]][0]:
+                pass
+        elif it[0] == "or":
+            out += _static_texts(it[1])
+    return out
 
 
 def run_case(case, acc, count=True, classify=True):
@@ -550,7 +643,7 @@ def run_case(case, acc, count=True, classify=True):
     strs = [x for x in bound if _text_checkable(x)]
     select, scalars = case.get("select", "id"), case.get("scalars", "-")
     label, v, unknown = run_built(args, kwargs, masks_list, bound, strs, case["method"], case["order"],
-                                  case["via"], case["conn"], acc, select, scalars)
+                                  case["via"], case["conn"], acc, select, scalars, _static_texts(case["items"]))
     if count:
         feats += ["method:" + case["method"], "order:" + case["order"], "conn:" + case["conn"]]
         if case["via"] == "ctor":
@@ -581,6 +674,8 @@ def _count(acc, label, unknown, nbound, feats, v):
 
 
 def _leaf_class(col, op, spec):
+    if spec[0] == "long":
+        return _leaf_class(col, op, _expand(spec)) + "-long-list"
     cop = L.normalise(op, spec)
     name = cop[0].lower().replace(" ", "-") if cop else "ill-typed"
     kind, v = spec
@@ -600,7 +695,7 @@ def _report(acc, case, v, leaves):
     sig, msg, obs, exp = v
     blame = None
     if leaves is not None and sig in ("wrong-rows", "statement-fails", "params-differ-from-operands",
-                                     "placeholder-count", "operand-in-sql-text"):
+                                     "placeholder-count", "operand-in-sql-text", "static-text-altered"):
         # which single leaf, executed alone in the same placeholder style, already misbehaves?
         from mc import core
         for col, op, spec in leaves:
@@ -609,6 +704,11 @@ def _report(acc, case, v, leaves):
             if run_case(sub, core.Acc(), count=False, classify=False) is not None:
                 blame = _leaf_class(col, op, spec)
                 break
+        if blame is None and _static_texts(case["items"]):
+            sub = dict(case, items=[it for it in case["items"] if it[0] != "st"
+                                    and not (it[0] == "or" and _static_texts([it]))])
+            if run_case(sub, core.Acc(), count=False, classify=False) is None:
+                blame = "static-condition"
         if blame is None and len(leaves) == 1:
             # one leaf that is right as a 3-tuple: its spelling (2-tuple, keyword, object ...) or the method
             form = "keyword" if case["kw"] else "+".join(sorted({it[0] for it in case["items"] if it[0] != "none"}))
@@ -667,7 +767,7 @@ def shards(tier):
     out += [("pairs", lo, min(lo + 5, na)) for lo in range(0, na, 5)]
     nd = len(_item_alphabet(True))
     out += [("deco", k, 24) for k in range(24)]
-    out += [("kw",), ("illtyped",)] + [("seq", k, 4) for k in range(4)]
+    out += [("kw",), ("illtyped",)] + [("seq", k, 4) for k in range(4)] + [("long", k, 16) for k in range(16)]
     if tier == "thorough":
         out += [("triples", i) for i in range(na)]
         out += [("deco3", k, 8) for k in range(8)]
@@ -727,6 +827,34 @@ def _mass_run(acc, shape, atoms, conn, orfeat):
     if v is not None:
         case = _mass(acc, shape, atoms, conn)
         _report(acc, case, v, [(a.col, a.op, a.spec) for a in atoms])
+
+
+def _long_atoms():
+    out = []
+    for col in ("n", "s"):
+        for n in (1001, 2001):
+            for present in ("none", "start", "end", "both"):
+                for null in (0, 1):
+                    for kind in ("l", "t", "s"):
+                        spec = ["long", {"kind": kind, "n": n, "col": col, "present": present, "null": null}]
+                        for op in ("IN", "NOT IN") + (("=", "!=") if kind != "s" else ()):
+                            out.append(["a3", col, op, spec])
+    return out
+
+
+def _long_block(acc, k, step):
+    partners = [REPS[i].item("a3") for i in (0, 3, 10, 13)]
+    for item in _long_atoms()[k::step]:
+        base = {"kw": {}, "order": "id", "via": "call", "method": "list"}
+        for conn in ("q", "p"):
+            run_case(dict(base, items=[item], conn=conn), acc)
+        for other in partners:
+            run_case(dict(base, items=[item, other], conn="q"), acc)
+            run_case(dict(base, items=[["or", [item, other], {}]], conn="q"), acc)
+            run_case(dict(base, items=[["or", [other, item], {}], ["none"]], conn="p"), acc)
+        run_case(dict(base, items=[["or", [item], {}]], kw={"_d": ["v", 0]}, conn="q", method="all"), acc)
+        if acc.expired():
+            return
 
 
 def _bulk_feats(acc, atoms_with_counts, extra):
@@ -818,6 +946,9 @@ def run_shard(shard, tier, seed, acc):
         return
     if kind == "seq":
         _seq_block(acc, shard[1], shard[2])
+        return
+    if kind == "long":
+        _long_block(acc, shard[1], shard[2])
         return
     if kind == "triples":
         a = ATOMS[shard[1]]
@@ -976,6 +1107,9 @@ def selftest():
         got = [r[0] for r in db.execute(f"SELECT id FROM t WHERE {sql} ORDER BY id", params)]
         exp = [i for i in range(NROWS) if a.masks[0] >> i & 1]
         assert got == exp, (a.col, a.op, a.spec, got, exp)
+    for k, (text, _fn) in enumerate(STATICS):
+        got = [r[0] for r in db.execute(f"SELECT id FROM t WHERE {text} ORDER BY id")]
+        assert got == [i for i in range(NROWS) if _static_masks(k)[0] >> i & 1], (text, got)
     # tests/test_mtd_sql.py::test_complex_conditions, transcribed to the model
     rows = [(1, "James", 1), (2, "Arnold", 1), (3, "Chuck", 7), (4, "Harry", 7), (5, "Asimov", 7)]
     sel = [r[0] for r in rows if L.and3([L.or3([L.eq3(r[1], "Chuck"), L.eq3(r[0], 2)]), L.eq3(r[2], 1)]) is True]
